@@ -23,7 +23,9 @@ import (
 	"github.com/bloxapp/ssv/protocol/v2/ssv/queue"
 	ssvtypes "github.com/bloxapp/ssv/protocol/v2/types"
 
+	"verifharness/internal/dsim"
 	"verifharness/internal/evid"
+	"verifharness/internal/qsim"
 )
 
 func Spec() *evid.Spec {
@@ -32,6 +34,7 @@ func Spec() *evid.Spec {
 		Level: "exploration",
 		Rule: "sequential lane: seed-determined op sequences (push/try-push/pop/try-pop, 7 filter families incl. the two filters of Validator.ConsumeQueue, random prioritizer state, capacity 1..32) " +
 			"against a multiset model checked after every op; concurrent lane: 2-6 producers + 1 consumer, <=14 ops, porcupine linearizability vs the same model, under the race detector. " +
+			"consumer lane: the real Validator.HandleMessage + ConsumeQueue goroutines of 4 operators (real filters, real prioritizer) over a whole duty with messages pushed before the duty starts, during it and after it; conservation (pushed = handled + still queued, Len() read at quiescent points) per operator. " +
 			"A case is non-trivial if at least one pop ran with a filter that rejects a queued message while another queued message exists, or (concurrent) if two operations overlapped; distinct = hash of the op/outcome sequence",
 		Assumptions: []string{
 			"documented coarse priority order only: ExecuteDuty > Timeout > current height/slot > higher > lower; finer scores are not re-implemented by the oracle",
@@ -41,6 +44,8 @@ func Spec() *evid.Spec {
 		MinNontrivial: 50,
 		Lanes: []evid.Lane{
 			{Name: "seq", Children: evid.Const(8, 16), Cases: evid.Const(6000, 60000), TimeoutS: evid.Const(300, 3000), Run: runSeq},
+			{Name: "consumer", Children: evid.Const(8, 16), Cases: evid.Const(6, 120), TimeoutS: evid.Const(900, 7200),
+				Setup: func(ch *evid.Child) { ch.Data = dsim.NewEnv() }, Run: runConsumer},
 			{Name: "conc", Race: true, Children: evid.Const(8, 16), Cases: evid.Const(1500, 12000), TimeoutS: evid.Const(400, 3000), Run: runConc},
 		},
 	}
@@ -681,4 +686,112 @@ func runConc(c *evid.Case) {
 	if c.Index == 0 && c.Idx == 0 {
 		c.Sample(map[string]any{"capacity": capacity, "producers": nprod, "history": hist()})
 	}
+}
+
+// ---- consumer lane: the real queue consumer of the validator ------------------------------------------------
+
+// runConsumer pushes messages through Validator.HandleMessage before a duty starts (only ExecuteDuty is admitted then),
+// runs the duty with the whole cluster's real traffic through the real consumer goroutines, pushes late messages, and
+// checks conservation at quiescent points: what the driver pushed and no consumer handled must still be in the real
+// queue (Len()), nothing may be handled that was not pushed, nothing twice.
+func runConsumer(c *evid.Case) {
+	env := c.Data.(*dsim.Env)
+	rng := c.Rng
+	n := 4
+	role := []spectypes.BeaconRole{spectypes.BNRoleAttester, spectypes.BNRoleAggregator, spectypes.BNRoleProposer, spectypes.BNRoleSyncCommittee,
+		spectypes.BNRoleSyncCommitteeContribution}[rng.Intn(5)]
+	cl := dsim.NewCluster(env, rng, dsim.Config{N: n, Mode: "queue", Variants: true})
+	defer cl.Close()
+	slot := dsim.BaseSlot(role, 0, false)
+	height := specqbft.Height(slot)
+	id := dsim.MsgID(cl.KS.ValidatorPK.Serialize(), role)
+	hon := cl.Honest()
+	violated := false
+	leftQueuedSeen, handled := 0, 0
+	check := func(phase string) {
+		if violated {
+			return
+		}
+		for _, op := range hon {
+			real, model := op.QueueRealLen(role), op.QueueModelLen(role)
+			if model > 0 {
+				leftQueuedSeen++
+			}
+			// A message the filter does not admit gives no completion signal: the consumer may be between taking it from the
+			// inbox channel and linking it into its list. Re-read for up to 2 s; a lost message stays lost.
+			for try := 0; real != model && try < 200; try++ {
+				time.Sleep(10 * time.Millisecond)
+				real, model = op.QueueRealLen(role), op.QueueModelLen(role)
+			}
+			if real != model {
+				violated = true
+				c.Violation("consumer-queue-conservation", role.String()+"/"+phase,
+					fmt.Sprintf("operator %d role %s after %s: the real queue holds %d messages, but %d pushed messages have not been handled by any consumer (a message was lost or handled twice)", op.ID, role, phase, real, model),
+					map[string]any{"role": role.String(), "phase": phase, "actions": tailS(cl.Acts, 80)})
+				return
+			}
+		}
+		if cl.QueueMismatch != 0 {
+			violated = true
+			c.Violation("consumer-handled-unexpected-message", role.String()+"/"+phase, fmt.Sprintf("%d runner calls from the consumer did not correspond to a queued message (duplicate or foreign pop)", cl.QueueMismatch),
+				map[string]any{"role": role.String(), "actions": tailS(cl.Acts, 80)})
+		}
+		if cl.QueueStuck {
+			violated = true
+			c.Violation("pop-blocked-with-admissible", role.String()+"/"+phase, "the consumer did not pop a message that the filter admits (180 s watchdog)", map[string]any{"actions": tailS(cl.Acts, 80)})
+		}
+	}
+	// phase 0: early consensus traffic for the coming duty while no duty is running (must stay queued)
+	early := 1 + rng.Intn(5)
+	for i := 0; i < early; i++ {
+		from := spectypes.OperatorID(1 + rng.Intn(n))
+		t := []specqbft.MessageType{specqbft.PrepareMsgType, specqbft.CommitMsgType, specqbft.RoundChangeMsgType}[rng.Intn(3)]
+		sm := env.SignQBFT(cl.KS, from, &specqbft.Message{MsgType: t, Height: height, Round: specqbft.Round(1 + rng.Intn(2)), Identifier: id[:], Root: qsim.Root([]byte("V-early"))})
+		for _, op := range hon {
+			if rng.Intn(2) == 0 {
+				_ = cl.Deliver(op, dsim.WrapConsensus(id, sm), "early")
+			}
+		}
+	}
+	check("early-traffic")
+	// phase 1: the duty, with everything the cluster says going through the real queues
+	duty := dsim.DutyFor(role, slot)
+	for _, op := range hon {
+		_ = cl.StartDuty(op, duty, "fresh", nil)
+		check("duty-start")
+	}
+	for k := 0; k < 400 && !violated; k++ {
+		if cl.DrainAll(5+rng.Intn(20)) == 0 {
+			break
+		}
+		check("duty-traffic")
+	}
+	for _, op := range hon {
+		handled += len(op.Actions)
+	}
+	// phase 2: late messages after the duty
+	for i := 0; i < 3; i++ {
+		from := spectypes.OperatorID(1 + rng.Intn(n))
+		sm := env.SignQBFT(cl.KS, from, &specqbft.Message{MsgType: specqbft.CommitMsgType, Height: height + specqbft.Height(rng.Intn(2)), Round: 1, Identifier: id[:], Root: qsim.Root([]byte("V-late"))})
+		for _, op := range hon {
+			_ = cl.Deliver(op, dsim.WrapConsensus(id, sm), "late")
+		}
+	}
+	check("late-traffic")
+	c.Count("consumer_histories", 1)
+	c.Count("consumer_actions_handled", int64(handled))
+	c.Count("consumer_checkpoints_with_messages_left_queued", int64(leftQueuedSeen))
+	if leftQueuedSeen > 0 && handled > 0 {
+		c.Nontrivial(evid.Hash("consumer", role, early, handled, leftQueuedSeen))
+	}
+	if c.Index == 0 && c.Idx == 0 {
+		c.Sample(map[string]any{"lane": "consumer", "role": role.String(), "actions": tailS(cl.Acts, 40)})
+	}
+}
+
+func tailS(a []string, n int) []string {
+	if len(a) > n {
+		return a[len(a)-n:]
+	}
+	return a
 }
